@@ -406,19 +406,39 @@ _c("C18",
 
 _c("C10",
    "PARTIAL. Coq theorems (Props/C10.v, closed under the global context) over executable models of the trusted-deserialization "
-   "classifier and mapping (Ser/Trusted.v) and of the fast serializer (Ser/Fast.v): on the flat fragment (primitive fields, document in "
-   "vset normal form under the fields' own names) the trusted path returns exactly the regular path's instance (C10_trusted_partial, "
-   "induction over the field list); for an ineligible class the flag changes nothing (C10_ineligible); from_trusted_data equals "
-   "construct when every value is a fixpoint of its vset chain (C10_from_trusted, uses Struct/Instance.construct); fast value "
-   "serialization equals regular for every declaration built from leaves, Array and Set (C10_fast_value_partial, induction on the "
-   "field); the full statement is a Definition with five refutation witnesses (it is false of the pinned tree). Nested classes, "
-   "Optional/Enum/SerializableField leaves, mappers and the class-level fast clause are decided by the differential: the model's "
-   "eligible / deser_regular / deser_trusted / construct / from_trusted / create_serializer / fast_ser are compared with typedpy "
-   "inside Coq, and real == and equal Serializer output between the two paths are evaluated on every generated case.",
-   "Trusted: Coq kernel + vm_compute; Trusted.v/Fast.v hand-written (nesting depth 2); date/Decimal (de)serialization and Map/Tuple/"
-   "Anything/OneOf kinds as per-case oracles; harness/c10gen.py; CPython.",
-   "Coq proof (path equality on the characterised safe fragment by induction, refutation witnesses) + model/implementation "
-   "correspondence in vm_compute")
+   "classifier and mapping (Ser/Trusted.v), of the fast serializer (Ser/Fast.v) and of the per-class serializer STATE "
+   "(Ser/FastState.v: which function K.serialize is after any sequence of class definitions with inheritance, "
+   "create_serializer calls with any flags, instantiations / from_trusted_data and serializations; late binding of class "
+   "references, the first-use caches of Array/Set.serialize, the compact wrapper). Trusted side: on the flat fragment "
+   "(primitive fields, document in vset normal form under the fields' own names) the trusted path returns exactly the regular "
+   "path's instance (C10_trusted_partial, induction over the field list); for an ineligible class the flag changes nothing "
+   "(C10_ineligible); from_trusted_data equals construct when every value is a fixpoint of its vset chain (C10_from_trusted). "
+   "Fast side: per field, fast = regular on every declaration built from leaves, Array and Set (C10_fast_value_partial); per "
+   "class, for every safe class environment (nested classes, Array/Set/Optional of leaves and of classes, simple mappers, no "
+   "TO_CAMELCASE on a class that nests others, no Decimal/NoneField leaves, no defaults) and every instance listed in "
+   "declaration order the order-free fast document is the regular document (C10_fast_class, induction on nesting depth, field "
+   "list and field type); over histories: a class whose constructor has returned keeps a serializer of its own through every "
+   "later operation (C10_fast_instantiated_keeps_serializer, invariant over op sequences), in every state where the reachable "
+   "classes have their own serializers and the Array/Set caches are current the installed closure returns the order-free "
+   "document (C10_fast_state_independent, simulation by induction on depth), hence for EVERY order of create_serializer calls "
+   "and instantiations followed by any serializations the documents depend only on the flags each class ended up with "
+   "(C10_fast_settled_history) and, with default flags, equal the regular documents (C10_fast_history). The full statement is a "
+   "Definition with refutation witnesses (it is false of the pinned tree: F18, AnyOf[None,T], unsupported mappers, Boolean "
+   "strings, compact conditions, serializer frozen by an early Array.serialize, subclass instance in a base-class field). "
+   "Everything else - Optional/Enum/SerializableField leaves and mappers on the trusted side, serialize_none/compact flags, "
+   "unsafe declarations - is decided by the differential: the model's eligible / deser_regular / deser_trusted / construct / "
+   "from_trusted / create_serializer / fast_ser / run_ops (state machine, op by op) / ser_regular are compared with typedpy inside "
+   "Coq, and real == and equal Serializer output between the two paths, and x.serialize() / Serializer(x).serialize() against "
+   "Serializer(twin).serialize(), are evaluated on every generated case (static classes, a complete lattice of short "
+   "schedules over Parent/Child/Holder shapes, random families with inheritance and schedules).",
+   "Trusted: Coq kernel + vm_compute; Trusted.v/Fast.v/FastState.v hand-written (validated by correspondence, not derived; "
+   "nesting depth <= 3; single inheritance, at most one mapper per inheritance chain; user-defined serialize methods, "
+   "_failed_serializer_creation and nested Array[Array[Class]] are outside the state model); date/Decimal (de)serialization "
+   "and Map/Tuple/Anything/OneOf kinds as per-case oracles (C10_fast_class assumes a SerializableField never serializes to "
+   "None); instances are compared as dicts (attribute order is fixed to declaration order in C10_fast_class); "
+   "harness/c10gen.py, harness/c10hist.py; CPython.",
+   "Coq proof (path equality on the characterised safe fragment by induction; invariants and a simulation over operation "
+   "histories of the serializer state machine; refutation witnesses) + model/implementation correspondence in vm_compute")
 _c("C11",
    "Coq theorems (Props/C11.v, closed under the global context). (1) Value level, executable model of Structure.__eq__, __str__ and "
    "__hash__ (Struct/EqHash.v; hash = an uninterpreted function of the string): Python == on model values is reflexive, "
